@@ -1,7 +1,13 @@
 use crate::DbError;
 use crate::utilities::serialize::Serialize;
 use crate::utilities::serialize::SerializeStatic;
+#[cfg(agdb_verif)]
+use super::verif_fs::File;
+#[cfg(agdb_verif)]
+use super::verif_fs::OpenOptions;
+#[cfg(not(agdb_verif))]
 use std::fs::File;
+#[cfg(not(agdb_verif))]
 use std::fs::OpenOptions;
 use std::io::Read;
 use std::io::Seek;
